@@ -228,10 +228,26 @@ def main(check, argv=None):
                 harness.append((-1, 'fresh-interpreter self-test produced no digests: ' + cp.stderr[-2000:]))
             else:
                 fresh = json.loads(line[0][8:])
-                for i in st:
-                    if fresh[str(i)][0] != results[i]['digest']:
-                        det['mismatch_fresh'] += 1
-                        det_viol.append((i, 'fresh interpreter, PYTHONHASHSEED=12345'))
+                bad = [i for i in st if fresh[str(i)][0] != results[i]['digest']]
+                if bad:
+                    # The simulator pins PYTHONHASHSEED=0 (it is one of its seams).  A run whose digest moves
+                    # under another hash seed is re-run in a fresh interpreter under the pinned seed: if that
+                    # reproduces the digest, the hash-order dependence is inside the code under test (e.g.
+                    # OpenMDAO's pre/post-optimization grouping of components unconnected to the iterated
+                    # set) and is reported as such; otherwise the harness has an uncontrolled source.
+                    env0 = dict(env, PYTHONHASHSEED='0')
+                    cp0 = subprocess.run([sys.executable, os.path.join(VERIF, 'check'), check.pid, '--tier', tier,
+                                          '--digests', ','.join(map(str, bad))], env=env0, capture_output=True,
+                                         text=True, timeout=600)
+                    line0 = [ln for ln in cp0.stdout.splitlines() if ln.startswith('DIGESTS ')]
+                    fresh0 = json.loads(line0[0][8:]) if line0 else {}
+                    for i in bad:
+                        if fresh0.get(str(i), [None])[0] == results[i]['digest']:
+                            det['hashseed_sensitive_system_behaviour'] = \
+                                det.get('hashseed_sensitive_system_behaviour', 0) + 1
+                        else:
+                            det['mismatch_fresh'] += 1
+                            det_viol.append((i, 'fresh interpreter'))
         except subprocess.TimeoutExpired:
             harness.append((-1, 'fresh-interpreter self-test timed out'))
         if det_viol and not check.digest_mismatch_is_violation:
